@@ -248,6 +248,16 @@ static void check_bell_gen(int full, a_trajbell c, a_real jm, a_real am, a_real 
         ASSERT(c.ta >= 2 * c.taj, "bell gen: no-cruise plan with both phases: the constant-acceleration segment has non-negative duration (ta >= 2 taj)");
         ASSERT(c.td >= 2 * c.tdj, "bell gen: no-cruise plan with both phases: the constant-deceleration segment has non-negative duration (td >= 2 tdj)");
     }
+    if (!full && r > 0 && c.tv > 0)
+    {
+        /* cruise plan (exact domain only: the branch tests (vm - v) * jm < am^2 are exact on small integers, and rounding is monotonic):
+           each ramp is built from ITS OWN velocity gap, so both constant segments are non-negative and the peak
+           acceleration / deceleration stays inside the limit (1 ulp-scale slack for the rounded sqrt) */
+        ASSERT(c.ta >= 2 * c.taj, "bell gen: cruise plan: the constant-acceleration segment has non-negative duration (ta >= 2 taj)");
+        ASSERT(c.td >= 2 * c.tdj, "bell gen: cruise plan: the constant-deceleration segment has non-negative duration (td >= 2 tdj)");
+        ASSERT(c.am >= 0 && c.am <= spec_abs(am) * (1 + 0x1p-40), "bell gen: cruise plan: the peak acceleration stays within the acceleration limit");
+        ASSERT(c.dm <= 0 && -c.dm <= spec_abs(am) * (1 + 0x1p-40), "bell gen: cruise plan: the peak deceleration stays within the acceleration limit");
+    }
 }
 void h_bell_gen(void)
 {
